@@ -11,6 +11,8 @@ import (
 	"sort"
 	"strconv"
 	"strings"
+	"sync"
+	"sync/atomic"
 
 	"github.com/bufbuild/protocompile"
 	"github.com/bufbuild/protocompile/ast"
@@ -39,6 +41,12 @@ import (
 //	                            both); answer `ok n=<count> <loc> ...`
 //	raw <m>                     sourceinfo.GenerateSourceInfo(ast, nil, flags of m): the public entry
 //	                            point without an option index (every option stays uninterpreted)
+//	conc <rounds>               ONE parsed AST shared by 8 goroutines released together: each generates the
+//	                            source info of its own mode (1,2,4,6, each twice) `rounds` times with
+//	                            sourceinfo.GenerateSourceInfo, then once with Compiler.Compile from
+//	                            SearchResult{AST: shared}; every result must equal the one a lone caller
+//	                            gets. Answer `ok`, or `differs m=<mode> via=<direct|compile> n=… <loc>…`
+//	                            (the first differing concurrent result)
 //	tags / schema               internal/tags constants and descriptorpb's reflection schema in the
 //	                            format of the Lean tables
 //
@@ -880,6 +888,12 @@ func (e *srcinfoEngine) Exec(op string) string {
 			return "err " + b03ErrClass(err)
 		}
 		return "ok " + b03Locs(res.FileDescriptorProto().GetSourceCodeInfo().GetLocation())
+	case len(w) == 2 && w[0] == "conc":
+		rounds, err := strconv.Atoi(w[1])
+		if err != nil || !e.ok {
+			return "bad-op"
+		}
+		return b03Conc(e.src, rounds)
 	case len(w) == 2 && w[0] == "raw":
 		// the public entry point without an option index: every option is uninterpreted
 		m, err := strconv.Atoi(w[1])
@@ -901,6 +915,109 @@ func (e *srcinfoEngine) Exec(op string) string {
 		return "ok " + b03Locs(sourceinfo.GenerateSourceInfo(file, nil, opts...).GetLocation())
 	}
 	return "bad-op"
+}
+
+func b03GenOpts(m int) []sourceinfo.GenerateOption {
+	var opts []sourceinfo.GenerateOption
+	if m&2 != 0 {
+		opts = append(opts, sourceinfo.WithExtraComments())
+	}
+	if m&4 != 0 {
+		opts = append(opts, sourceinfo.WithExtraOptionLocations())
+	}
+	return opts
+}
+
+// b03Conc: an *ast.FileNode is documented as shareable (SearchResult.AST); whatever several
+// goroutines compute from one AST at the same time must be what each of them computes alone.
+func b03Conc(src []byte, rounds int) string {
+	file, idx, err := b03Facts(b03Gen(src))
+	if err != nil {
+		return "err " + b03ErrClass(err)
+	}
+	modes := []int{1, 2, 4, 6}
+	ref := map[int]string{}
+	for _, m := range modes {
+		ref[m] = b03Locs(sourceinfo.GenerateSourceInfo(file, idx, b03GenOpts(m)...).GetLocation())
+	}
+	base := b03Gen(src).resolver()
+	shared := protocompile.ResolverFunc(func(path string) (protocompile.SearchResult, error) {
+		if path == b03TestPath {
+			return protocompile.SearchResult{AST: file}, nil
+		}
+		return base.FindFileByPath(path)
+	})
+	const workers = 8
+	var ready atomic.Int32
+	var wg sync.WaitGroup
+	bad := make([]string, workers)
+	for i := 0; i < workers; i++ {
+		wg.Add(1)
+		go func(i int) {
+			defer wg.Done()
+			defer func() {
+				if r := recover(); r != nil {
+					bad[i] = "panic " + Canon(fmt.Sprint(r))
+				}
+			}()
+			m := modes[i%len(modes)]
+			opts := b03GenOpts(m)
+			ready.Add(1)
+			for ready.Load() < workers {
+				// spin barrier: all goroutines start within nanoseconds of each other
+			}
+			for k := 0; k < rounds; k++ {
+				got := b03Locs(sourceinfo.GenerateSourceInfo(file, idx, opts...).GetLocation())
+				if got != ref[m] && bad[i] == "" {
+					bad[i] = fmt.Sprintf("differs m=%d via=direct %s", m, got)
+				}
+			}
+			c := protocompile.Compiler{Resolver: shared, SourceInfoMode: protocompile.SourceInfoMode(m),
+				Reporter: b03Reporter(), RetainASTs: true}
+			fs, err := c.Compile(context.Background(), b03TestPath)
+			if err != nil {
+				if bad[i] == "" {
+					bad[i] = fmt.Sprintf("differs m=%d via=compile err %s", m, b03ErrClass(err))
+				}
+				return
+			}
+			res, ok := fs[0].(linker.Result)
+			if !ok {
+				return
+			}
+			got := b03Locs(res.FileDescriptorProto().GetSourceCodeInfo().GetLocation())
+			if got != ref[m] && bad[i] == "" {
+				bad[i] = fmt.Sprintf("differs m=%d via=compile %s", m, got)
+			}
+		}(i)
+	}
+	wg.Wait()
+	for _, b := range bad {
+		if b != "" {
+			return b
+		}
+	}
+	return "ok"
+}
+
+// b03LongLines: declarations packed on very long lines (a position far into a line costs a long
+// column scan: the window for goroutines to interfere in position bookkeeping grows with it).
+func b03LongLines(n int) string {
+	var sb strings.Builder
+	sb.WriteString("syntax = \"proto3\"; import \"b03opts.proto\"; message M {")
+	for i := 1; i <= n; i++ {
+		fmt.Fprintf(&sb, " /* c%d */ int32 f%d = %d [json_name = \"j%d\", (b03.fdi) = %d];", i, i, i, i, i)
+	}
+	sb.WriteString(" } enum E {")
+	for i := 0; i < n; i++ {
+		fmt.Fprintf(&sb, " V%d = %d [(b03.evo) = { a: %d r: [1, 2] }];", i, i, i)
+	}
+	sb.WriteString(" }\nservice S {")
+	for i := 0; i < n/4; i++ {
+		fmt.Fprintf(&sb, "\trpc R%d(M) returns (stream M) { option deprecated = true; }", i)
+	}
+	sb.WriteString(" }\n")
+	return sb.String()
 }
 
 func (e *srcinfoEngine) Trivial(op, ans string) bool {
@@ -1856,6 +1973,10 @@ var b03Directed = []string{
 	"syntax = \"proto3\";\nmessage M {\n  /* a */ repeated /* b */ int32 /* c */ x /* d */ = /* e */ 1 /* f */ [ /* g */ deprecated /* h */ = /* i */ true /* j */ ] /* k */ ; /* l */\n}\nservice S { /* a */ rpc /* b */ R /* c */ ( /* d */ stream /* e */ M /* f */ ) /* g */ returns /* h */ ( /* i */ M /* j */ ) /* k */ ; /* l */ }",
 	// trailing comments against closing braces and at the end of the file
 	"syntax = \"proto3\";\nmessage M { int32 a = 1; /* amb */ }\nmessage N { int32 a = 1;\n  // t\n}\nmessage O { /* only */ }\nenum E { A = 0; // t\n  // u\n\n}\n// end\n\n// of file",
+	// a multi-line block comment that starts on the line of the token before it and ends on the line of
+	// the closing symbol after it, in every kind of body and after the last element of every kind
+	"syntax = \"proto3\";\nmessage M { /* a\n   b */ }\nmessage F { int32 x = 1; /* a\n   b */ }\nenum E { A = 0; /* a\n   b */ }\nmessage O { oneof o { int32 x = 1; /* a\n   b */ } /* c\n   d */ }\nservice S { /* a\n   b */ }\nservice T { rpc R(M) returns (M) { /* a\n   b */ } rpc Q(M) returns (M) { option deprecated = true; /* a\n   b */ } rpc P(M) returns (M); /* a\n   b */ }\nmessage L { int32 y = 1 [deprecated = true /* a\n   b */ ]; map<string, /* a\n  b */ int32> m = 2; /* a\n   b */ }",
+	"syntax = \"proto2\";\nmessage M { optional group G = 1 { /* a\n   b */ } extensions 100 to 200; /* a\n   b */ }\nextend M { /* a\n   b */ optional int32 e = 100; /* a\n   b */ }\nenum E { option allow_alias = false; /* a\n   b */ A = 0; } /* a\n   b */",
 	// empty statements
 	"syntax = \"proto3\";; message M { ; int32 a = 1;; } ; enum E { A = 0;; }",
 	// only comments
@@ -1929,7 +2050,7 @@ func b03SrcinfoCase(src []byte) []string {
 	if op == "" {
 		return nil
 	}
-	return []string{op, "mode 1", "mode 2", "mode 4", "mode 6", "raw 1", "raw 2", "raw 4", "raw 6"}
+	return []string{op, "mode 1", "mode 2", "mode 4", "mode 6", "raw 1", "raw 2", "raw 4", "raw 6", "conc 4"}
 }
 
 func (e *srcinfoEngine) Gen(r *Rand, tier string) [][]string {
@@ -1978,6 +2099,14 @@ func (e *srcinfoEngine) Gen(r *Rand, tier string) [][]string {
 			if !add(b03Render(b03Tokenize(txt), profs[3])) {
 				rejected++
 			}
+		}
+	}
+	// long lines, shared AST, many rounds
+	for _, n := range []int{30, 70} {
+		if c := b03SrcinfoCase([]byte(b03LongLines(n))); c != nil {
+			cases = append(cases, []string{c[0], "mode 1", "mode 2", "mode 4", "mode 6", "conc 25"})
+		} else {
+			rejected++
 		}
 	}
 	for _, depth := range []int{6, 11} {
